@@ -48,6 +48,15 @@ def merge_outcomes(outs):
     return res
 
 
+def _has_quantifier(t, _cache={}):
+    k = t.get_id()
+    if k in _cache:
+        return _cache[k]
+    r = z3.is_quantifier(t) or any(_has_quantifier(c) for c in t.children())
+    _cache[k] = r
+    return r
+
+
 def dead(st):
     return any(z3.is_false(c) for c in st.pc)
 
@@ -156,6 +165,8 @@ class Flow:
                     exe.tu.global_by_id.setdefault(d['id'], d)
                     continue
                 p = exe.local_ptr(d)
+                if d.get('name'):
+                    st.ghost['$decl:' + d['name']] = d['id']      # which same-named local is in scope (for specifications)
                 # forget stale cells of a re-entered declaration
                 for key in [k for k in st.heap if k[0] == p.obj.id]:
                     del st.heap[key]
@@ -218,6 +229,16 @@ class Flow:
         outs = self.exec_stmt(then, st_t)
         outs += self.exec_stmt(els, st_f) if els else [Outcome('next', st_f)]
         return merge_outcomes(outs)
+
+    def feasible_qf(self, st, c, ms=2000):
+        """feasibility from the quantifier-free part of the context only ('unknown' counts as feasible)."""
+        s = z3.Solver()
+        s.set('timeout', ms)
+        for t in st.pc:
+            if not _has_quantifier(t):
+                s.add(t)
+        s.add(c)
+        return s.check() != z3.unsat
 
     def feasible(self, st, c):
         """cheap solver check used only to prune: 'unknown' counts as feasible."""
@@ -412,7 +433,20 @@ class Flow:
                         exits.append(Outcome('next', s))
                         continue
                     if not z3.is_true(c):
-                        raise FrontEndError('loop at %s in %s needs an invariant (condition not constant when unrolling: %s)' % (exe._loc(n), exe.fn_stack[-1], str(c)[:120]))
+                        if cut and cut.get('symbolic_exit'):
+                            # bounded number of iterations with a data-dependent exit (e.g. len = 32,64,...,2^30 while len < n):
+                            # the exit branch leaves the loop, the loop continues under the condition
+                            sf = s.fork()
+                            sf.assume(z3.Not(c))
+                            if not dead(sf):
+                                exits.append(Outcome('next', sf))
+                            if not self.feasible_qf(s, c):
+                                continue
+                            s.assume(c)
+                            if dead(s):
+                                continue
+                        else:
+                            raise FrontEndError('loop at %s in %s needs an invariant (condition not constant when unrolling: %s)' % (exe._loc(n), exe.fn_stack[-1], str(c)[:120]))
                 for o in self.exec_stmt(body, s):
                     if o.kind in ('next', 'continue'):
                         s2 = o.st
